@@ -31,7 +31,7 @@ pub const PROPS: &[PropDef] = &[
     PropDef { id: "C16", title: "expired values are physically dropped from scanned bucket lists", level: "exploration", runs: (200_000, 10_000_000), design_ref: "4/C16" },
     PropDef { id: "C17", title: "map and set handles stay valid across insertions", level: "exploration", runs: (100_000, 5_000_000), design_ref: "4/C17" },
     PropDef { id: "C18", title: "a panicking user callback leaves every collection valid and un-torn", level: "fault_enumeration", runs: (24_000, 1_200_000), design_ref: "4/C18" },
-    PropDef { id: "C19", title: "ordered export allocates in proportion to the entry count", level: "exploration", runs: (1_600, 3_200), design_ref: "4/C19" },
+    PropDef { id: "C19", title: "ordered export allocates in proportion to the entry count", level: "exploration", runs: (1_600, 8_000), design_ref: "4/C19" },
     PropDef { id: "C20", title: "only live keys are handed to the caller's comparison code", level: "exploration", runs: (120_000, 6_000_000), design_ref: "4/C20" },
 ];
 
